@@ -115,7 +115,10 @@ class Run:
         f0, m0 = self.fixed.copy(), self.mobile0.copy()
         self.cut = False
         self.out = None
-        com = self.mobile0.mean(axis=0)
+        # the centre handed to the search: for a one-bead mobile molecule the bead itself (a view of the caller's array),
+        # otherwise a separately computed centroid; either way the caller's arrays are the caller's
+        com = self.mobile0[0] if len(self.mobile0) == 1 else self.mobile0.mean(axis=0)
+        com0 = np.array(com, float).copy()
         with owned_random(script), patched(be, 'Chi2Calculator', RecChi2), \
                 patched(be, 'accept_metropolis', rec_acc), patched(be, 'move_mol_atom', rec_move), \
                 quiet_stdout():
@@ -124,7 +127,8 @@ class Run:
                                                  list(self.restr), self.info, 0.3, self.kinds)
             except Horizon:
                 self.cut = True
-        self.inputs_intact = np.array_equal(f0, self.fixed) and np.array_equal(m0, self.mobile0)
+        self.inputs_intact = np.array_equal(f0, self.fixed) and np.array_equal(m0, self.mobile0) and \
+            np.array_equal(com0, np.asarray(com, float))
 
     # -- reference model stepped along the events ---------------------------
     def conform(self):
